@@ -473,13 +473,17 @@ def r2_framing(idx, r):
     # close: reads count again, raises when different
     envc = single_assign_env(cl.node)
     raised = False
+    from ..flow import path_conditions as _pc
     for n in walk_local(cl.node):
-        if isinstance(n, ast.If) and any(isinstance(x, ast.Raise) for x in n.body):
-            t = propagate(n.test, envc)
-            if isinstance(t, ast.Compare) and len(t.ops) == 1 and isinstance(t.ops[0], ast.NotEq):
-                sides = {norm(t.left), norm(t.comparators[0])}
-                if "self.numBytes" in sides and any("self.rwInt" in s for s in sides):
-                    raised = True
+        if isinstance(n, ast.Raise):  # some raise stands under "the trailing count differs from the leading one", however that is written
+            for t, pol in _pc(cl.node, n):
+                t = propagate(t, envc)
+                while isinstance(t, ast.UnaryOp) and isinstance(t.op, ast.Not):
+                    t, pol = t.operand, not pol
+                if isinstance(t, ast.Compare) and len(t.ops) == 1 and isinstance(t.ops[0], (ast.NotEq, ast.Eq)) and pol == isinstance(t.ops[0], ast.NotEq):
+                    sides = {norm(t.left), norm(t.comparators[0])}
+                    if "self.numBytes" in sides and any("self.rwInt" in s for s in sides):
+                        raised = True
     r.require(raised, "binary-reader:close:checks-trailing-count", cl, msg="close() must re-read the count and raise when it differs from the leading one")
 
     # AsciiRecordWriter.close: count, data, count, newline
